@@ -1,0 +1,13 @@
+//go:build verif
+// +build verif
+
+// Contracts for package stack, read only by the verifier in /verif (build tag verif).
+// This file contains no code.
+
+package stack
+
+// ASSUMED (not verified; used by callers in protocol/transport/tcp): cloning a route copies
+// it and touches nothing but the reference count of the endpoint it refers to.
+//@ func (*Route).Clone props C05 C04
+//@   trusted
+//@   modifies structfamily(referencedNetworkEndpoint)
